@@ -4,14 +4,19 @@ use std::io::{BufRead, BufReader, Write};
 use std::process::{Child, ChildStdin, ChildStdout, Command, Stdio};
 
 pub struct Drv {
-    child: Child,
-    stdin: ChildStdin,
-    stdout: BufReader<ChildStdout>,
+    child: Option<Child>,
+    stdin: Option<ChildStdin>,
+    stdout: Option<BufReader<ChildStdout>>,
     pub requests: u64,
 }
 
 impl Drv {
+    /// `path == "none"`: the executable model did not build; every request answers `no-model`
+    /// and only the oracle checks run.
     pub fn spawn(path: &str) -> Drv {
+        if path == "none" {
+            return Drv { child: None, stdin: None, stdout: None, requests: 0 };
+        }
         let mut child = Command::new(path)
             .stdin(Stdio::piped())
             .stdout(Stdio::piped())
@@ -19,16 +24,20 @@ impl Drv {
             .unwrap_or_else(|e| panic!("cannot start model driver {path}: {e}"));
         let stdin = child.stdin.take().unwrap();
         let stdout = BufReader::with_capacity(1 << 20, child.stdout.take().unwrap());
-        Drv { child, stdin, stdout, requests: 0 }
+        Drv { child: Some(child), stdin: Some(stdin), stdout: Some(stdout), requests: 0 }
     }
 
     pub fn ask(&mut self, req: &str) -> String {
+        let (stdin, stdout) = match (self.stdin.as_mut(), self.stdout.as_mut()) {
+            (Some(a), Some(b)) => (a, b),
+            _ => return "no-model".to_string(),
+        };
         self.requests += 1;
-        self.stdin.write_all(req.as_bytes()).unwrap();
-        self.stdin.write_all(b"\n").unwrap();
-        self.stdin.flush().unwrap();
+        stdin.write_all(req.as_bytes()).unwrap();
+        stdin.write_all(b"\n").unwrap();
+        stdin.flush().unwrap();
         let mut line = String::new();
-        let n = self.stdout.read_line(&mut line).unwrap();
+        let n = stdout.read_line(&mut line).unwrap();
         if n == 0 {
             panic!("model driver closed its output on request: {}", &req[..req.len().min(200)]);
         }
@@ -38,8 +47,10 @@ impl Drv {
 
 impl Drop for Drv {
     fn drop(&mut self) {
-        let _ = self.child.kill();
-        let _ = self.child.wait();
+        if let Some(child) = self.child.as_mut() {
+            let _ = child.kill();
+            let _ = child.wait();
+        }
     }
 }
 
